@@ -838,17 +838,23 @@ V_HARNESS(h_cc_seq)
 #ifndef HID
 #define HID 0
 #endif
+#ifdef VERIF_CBMC
+#define TEXT_EQUAL(a, b) __CPROVER_array_equal((a), (b))
+#else
+#define TEXT_EQUAL(a, b) (0 == memcmp((a), (b), sizeof(a)))
+#endif
+static vbi_char SAVE_D[1056], SAVE_H[1056];
 V_HARNESS(h_cc_fetch)
 {
-  unsigned k; vbi_bool ok; vbi_char cell, other; int y0, y1, roll, reset;
+  vbi_bool ok; vbi_char cell; int y0, y1, roll, reset;
   cc_channel *ch = &VBI.cc.channel[(PGNO - 1) & 7];
   V_INIT();
   cc_prologue();
   ch->hidden = HID;
-  k = in_u16(); V_ASSUME(k < 1056);
-  in_bytes(&cell, sizeof cell); in_bytes(&other, sizeof other);
+  /* both pages of the channel: all 1056 cells symbolic */
+  in_bytes(ch->pg[HID ^ 1].text, sizeof SAVE_D); in_bytes(ch->pg[HID].text, sizeof SAVE_H);
+  memcpy(SAVE_D, ch->pg[HID ^ 1].text, sizeof SAVE_D); memcpy(SAVE_H, ch->pg[HID].text, sizeof SAVE_H);
   y0 = in_int(); y1 = in_int(); roll = in_int(); reset = in_bool();
-  ch->pg[HID ^ 1].text[k] = cell; ch->pg[HID].text[k] = other;
   ch->pg[HID ^ 1].dirty.y0 = y0; ch->pg[HID ^ 1].dirty.y1 = y1; ch->pg[HID ^ 1].dirty.roll = roll;
   memset(&PG, 0, sizeof PG);
   ok = vbi_fetch_cc_page(&VBI, &PG, PGNO, reset);
@@ -862,29 +868,37 @@ V_HARNESS(h_cc_fetch)
     V_ASSERT(ok, "fetch_ok");
     V_ASSERT(PG.vbi == &VBI && PG.pgno == PGNO && PG.subno == 0 && PG.rows == ROWS && PG.columns == COLUMNS, "fetch_header");
     V_ASSERT(PG.screen_opacity == ((PGNO <= 4) ? VBI_TRANSPARENT_SPACE : VBI_OPAQUE), "fetch_screen_opacity");
-    V_ASSERT(0 == memcmp(&PG.text[k], &cell, sizeof cell), "fetch_cell_is_displayed_page");
-    { uint64_t w = *(const u64_alias *) &ch->pg[HID ^ 1].text[k];   /* the word view used by compare_page */
-      V_ASSERT(W_UNICODE(w) == cell.unicode && W_OPACITY(w) == cell.opacity && W_FG(w) == cell.foreground && W_BG(w) == cell.background
-               && W_UL(w) == cell.underline && W_IT(w) == cell.italic && W_FL(w) == cell.flash, "cell_layout");
-      V_ASSERT(W_WELLFORMED(w) == (cell.foreground < 8 && cell.background < 8 && cell.opacity < 4 && !cell.bold && !cell.conceal && !cell.proportional
-               && !cell.link && !cell.reserved && cell.size == 0 && cell.drcs_clut_offs == 0), "cell_layout_wellformed"); }
+    V_ASSERT(TEXT_EQUAL(PG.text, SAVE_D), "fetch_text_is_displayed_page");
     V_ASSERT(PG.dirty.y0 == y0 && PG.dirty.y1 == y1 && PG.dirty.roll == roll, "fetch_dirty_copied");
-    V_ASSERT(0 == memcmp(&ch->pg[HID ^ 1].text[k], &cell, sizeof cell), "fetch_source_unchanged");
-    V_ASSERT(0 == memcmp(&ch->pg[HID].text[k], &other, sizeof other), "fetch_hidden_page_unchanged");
+    V_ASSERT(TEXT_EQUAL(ch->pg[HID ^ 1].text, SAVE_D), "fetch_source_unchanged");
+    V_ASSERT(TEXT_EQUAL(ch->pg[HID].text, SAVE_H), "fetch_hidden_page_unchanged");
     V_ASSERT(ch->pg[HID ^ 1].dirty.y0 == ROWS && ch->pg[HID ^ 1].dirty.y1 == -1 && ch->pg[HID ^ 1].dirty.roll == 0, "fetch_resets_dirty");
     V_ASSERT(ch->hidden == HID, "fetch_keeps_hidden");
+    check_channel((PGNO - 1) & 7);
     V_REACH("fetched");
   }
+  /* the 64 bit word view of a cell used by compare_page (one arbitrary cell value at a literal position) */
+  in_bytes(&cell, sizeof cell);
+  SAVE_D[5] = cell;
+  { uint64_t w = *(const u64_alias *) &SAVE_D[5];
+    V_ASSERT(W_UNICODE(w) == cell.unicode && W_OPACITY(w) == cell.opacity && W_FG(w) == cell.foreground && W_BG(w) == cell.background
+             && W_UL(w) == cell.underline && W_IT(w) == cell.italic && W_FL(w) == cell.flash, "cell_layout");
+    V_ASSERT(W_WELLFORMED(w) == (cell.foreground < 8 && cell.background < 8 && cell.opacity < 4 && !cell.bold && !cell.conceal && !cell.proportional
+             && !cell.link && !cell.reserved && cell.size == 0 && cell.drcs_clut_offs == 0), "cell_layout_wellformed"); }
   V_END();
 }
 
 /* ======================================================================================================
  * 6. field-2 routing of vbi_decode_caption (line 284): caption vs XDS
  * ======================================================================================================
- * xds_separator's body is removed in the CBMC build (no effect; the XDS demultiplexer is the subject of C09).
- * RB1: first byte, literal with parity bit.  cc.xds symbolic.  Channel CC3 was put into roll-up mode by a literal RU2. */
+ * The real xds_separator runs (no packet in progress: curr_sp == NULL; the XDS demultiplexer itself is the subject of C09).
+ * RB1: first byte, literal with parity bit; RB2: second byte literal where the decoder dispatches on it.  cc.xds symbolic.
+ * Channel CC3 was put into roll-up mode by a literal RU2. */
 #ifndef RB1
 #define RB1 0x01
+#endif
+#ifndef RB2
+#define RB2 -1               /* second byte literal (needed where the decoder dispatches on it: XDS class/type, control codes), -1: symbolic */
 #endif
 V_HARNESS(h_cc_route)
 {
@@ -896,6 +910,7 @@ V_HARNESS(h_cc_route)
   buf[0] = ODD(0x14); buf[1] = ODD(0x25); vbi_decode_caption(&VBI, 284, buf);          /* RU2 on CC3 */
   V_ASSERT(ch->mode == MODE_ROLL_UP && VBI.cc.curr_chan == 2, "route_setup");
   xds0 = in_bool(); VBI.cc.xds = xds0; b2 = in_u8();
+  if (RB2 >= 0) b2 = (uint8_t) RB2;
   col0 = ch->col; nul0 = ch->nul_ct; mode0 = ch->mode;
   buf[0] = RB1; buf[1] = b2; vbi_decode_caption(&VBI, 284, buf);
   V_ASSERT(!c08_mutex_held(&VBI.cc.mutex), "route_mutex_released");
